@@ -12,6 +12,7 @@ GEN:  the same TLC runs print every finished script with the state the spec pred
 import json, os, shutil, threading
 from concurrent.futures import ThreadPoolExecutor
 import vlib, lsp
+from checks import server_common
 
 TABLES = [["a", "ß", "💣"], ["Z", "é", "𝒳"], ["_", "\u0080", "\U00010000"], ["x", "߿", "\U0010ffff"]]
 HUGE = {-1: 2 ** 31, -2: 2 ** 32 - 1}
@@ -24,7 +25,7 @@ METHODS = {"hover": "textDocument/hover", "definition": "textDocument/definition
            "syntaxTree": "glas/syntaxTree"}
 SEQ_ACTIONS = ["M_Dequeue", "M_Skip", "M_SpawnTask", "M_PollTasks", "M_LockVfs", "M_IgnoreChange", "M_ApplyEdit",
                "M_OpenStore", "M_WatchedDelete", "M_UnlockVfs", "M_TakeChange", "M_RequestCancel", "M_AcquireDbWrite",
-               "M_SetInputs", "M_SpawnDiag", "M_Close", "D_Emit", "E_Publish", "T_Start", "T_Aborted", "T_ReadVfs", "T_QueryDone",
+               "M_SetInputs", "M_SpawnDiagT", "M_Close", "D_Emit", "E_Publish", "T_Start", "T_Aborted", "T_ReadVfs", "T_QueryDone",
                "T_Return", "D_Return", "C_Script", "Finish"]
 PER_SESSION = 25
 DEADLINE = 30.0
@@ -292,9 +293,7 @@ def run(out, tier, seed):
     vlib.require_ok(r, "Server seq bfs")
     out.add_tlc(r, "MC (Alive, AtMostOneResponse, AllAnswered, NoDeadlock, LockDiscipline, EditSafety) + GEN: prefix + every message")
     bfs = list(r.cases())
-    for a in SEQ_ACTIONS:
-        if not r.coverage.get(a):
-            raise vlib.ToolError(f"Server (seq) action {a} never taken (vacuity)")
+    out.cov["action_coverage"].update(server_common.require_actions(r, SEQ_ACTIONS, "Server (seq)"))
     if len(bfs) < 2000:
         raise vlib.ToolError("too few single-message scripts emitted")
     # --- vacuity of the invariants: the pre-repair design and the out-of-grammar messages must break Alive
